@@ -9,7 +9,7 @@ import itertools
 
 import numpy as np
 
-from sim.kernel import HarnessError
+from sim.kernel import HarnessError, StopRun
 from sim.rngseam import RngSeam, SHUFFLE_FAULTS, RANDINT_FAULTS
 from sim import gen
 from sim.gen import norm, normlist
@@ -41,7 +41,15 @@ def _n_groups(spec, axis):
 
 def gen_plan(rng, tier, index):
     big = tier == 'thorough'
-    mode = 'B' if rng.chance(0.22) else 'A'
+    mode = 'B' if rng.chance(0.22) else ('C' if rng.chance(0.1) else 'A')
+    if mode == 'C':
+        # folds generated *inside* the bootstrap-cross-validation routines, judged by the descriptors the routine was given
+        spec = gen.gen_rdms_spec(rng, n_rdm=(3, 8), n_cond=(6, 10), nan_prob=0.0, kinds=('unique', 'groups', 'groups'), allow_allsame=False)
+        return {'mode': 'C', 'spec': spec, 'gen': rng.pick(['bootstrap_crossval', 'eval_dual_bootstrap']),
+                'rdm_desc': rng.pick(['grp', 'grp', 'index', 'uid']), 'pat_desc': rng.pick(['grp', 'grp', 'index', 'uid']),
+                'k_rdm': rng.pick([1, 2, 2, 3]), 'k_pattern': rng.pick([1, 2, 2, 3]), 'N': rng.randint(2, 4), 'n_cv': rng.pick([1, 1, 2]),
+                'boot_type': rng.pick(['both', 'rdm', 'pattern']),
+                'faults': {'rate': rng.pick([0.0, 0.3]), 'kinds': rng.subset(SHUFFLE_FAULTS + ['two_unique', 'perm', 'identity'], 0.3, 1.0)}}
     if mode == 'B':
         spec = gen.gen_rdms_spec(rng, n_rdm=(3, 7), n_cond=(7, 11), nan_prob=0.0,
                                  kinds=('unique', 'groups'), allow_allsame=False)
@@ -72,6 +80,7 @@ def gen_plan(rng, tier, index):
             'k_rdm': rng.randint(1, 6), 'k_pattern': rng.randint(1, 6), 'k': rng.randint(1, 5),
             'n_rdm': rng.randint(0, 4), 'n_pattern': rng.randint(0, 5), 'n_cv': rng.randint(1, 4),
             'use_default_k': rng.chance(0.15),
+            'prehistory': rng.pick([None, None, None, 'subset_reorder', 'subsample_sort', 'item_reorder', 'subset_pattern_sort']) if mode == 'A' else None,
             'faults': {'rate': rng.pick([0.0, 0.3, 0.6]),
                        'kinds': rng.subset(SHUFFLE_FAULTS + ['all_same', 'two_unique', 'perm', 'identity'], 0.3, 1.0)}}
     if mode == 'B':
@@ -391,6 +400,30 @@ def oracle_A(ctx, plan, src, tabs, res, info, value_fn=None, prefix=''):
 
 
 # ------------------------------------------------------------------------------------------- pipeline
+def _prehistory(plan, src):
+    """the data object has a past: an object derived from it was re-ordered in place (documented in-place operations on
+    *another* object) before the folds are made"""
+    ph = plan.get('prehistory')
+    if not ph:
+        return
+    ru, cu = list(src.rdm_descriptors['uid']), list(src.pattern_descriptors['uid'])
+    try:
+        if ph == 'subset_reorder':
+            child = src.subset('uid', ru[::2] if len(ru) > 1 else ru)
+            child.reorder(list(range(child.n_cond))[::-1])
+        elif ph == 'subsample_sort':
+            child = src.subsample('uid', ru[:1] + ru)
+            child.sort_by(uid='alpha')
+        elif ph == 'item_reorder':
+            child = src[0]
+            child.reorder(list(range(1, child.n_cond)) + [0])
+        else:
+            child = src.subset_pattern('uid', cu[1:] if len(cu) > 3 else cu)
+            child.sort_by(uid='alpha')
+    except Exception as e:
+        raise HarnessError(f'prehistory {ph} raised {e!r}')
+
+
 def _pre_boot(plan, src):
     from rsatoolbox.inference import bootstrap_sample, bootstrap_sample_rdm, bootstrap_sample_pattern
     pb = plan.get('pre_boot')
@@ -463,6 +496,7 @@ def _pipeline(ctx, plan, value_fn, script, strict, scripted_thetas=None):
     seam = RngSeam(ctx, plan['serve_seed'], plan.get('faults'), script=script, strict_script=strict)
     out = {}
     with seam:
+        _prehistory(plan, src0)
         src = _pre_boot(plan, src0)
         res, info = _call_generator(plan, src)
         if res is None:
@@ -492,6 +526,45 @@ def _pipeline(ctx, plan, value_fn, script, strict, scripted_thetas=None):
 NUMERIC = ('LinAlgError', 'FloatingPointError')
 
 
+def _mode_C(ctx, plan):
+    """cross-validated evaluation inside the bootstrap: every fold set the routine generates internally must keep the
+    groups of the descriptors *the routine was given* (and all bootstrap copies) on one side"""
+    from checks import c04
+    from sim.spies import Spies
+    import rsatoolbox.inference.evaluate as evm
+    import rsatoolbox.inference.crossvalsets as cvs
+    from rsatoolbox.model import ModelFixed
+    spec, routine = plan['spec'], plan['gen']
+    data = gen.build_rdms(spec, value_fn=c04.val_c)
+    models = [ModelFixed('m%d' % i, gen.build_model_rdms(spec, 1, salt='m%d' % i)) for i in range(2)]
+    pseudo = {'opts': {'rdm_desc': plan['rdm_desc'], 'pat_desc': plan['pat_desc']}, 'routine': routine, 'spec': spec}
+    seam = RngSeam(ctx, plan['serve_seed'], plan.get('faults'), script=plan.get('draw_script'), strict_script=plan.get('strict_script', False))
+    spies = Spies()
+    n_sets = [0]
+
+    def on_ret(ent):
+        n_sets[0] += 1
+        c04._validate_folds(ctx, pseudo, ent)
+    kw = dict(method='cosine', k_pattern=plan['k_pattern'], k_rdm=plan['k_rdm'], N=plan['N'], n_cv=plan['n_cv'],
+              rdm_descriptor=plan['rdm_desc'], pattern_descriptor=plan['pat_desc'])
+    if routine == 'bootstrap_crossval':
+        kw['boot_type'] = plan['boot_type']
+    with seam, spies:
+        spies.wrap(cvs.sets_k_fold, 'sets_k_fold', on_return=on_ret)
+        try:
+            getattr(evm, routine)(models, data, **kw)
+        except StopRun:
+            raise
+        except Exception as e:
+            ctx.probe('routine_raised_not_judged_here')      # what the routines themselves owe is C04's statement
+            ctx.notes.setdefault('mode_C_raised', type(e).__name__)
+    ctx.draw_script = seam.script_of_served()
+    if n_sets[0]:
+        ctx.nontrivial = True
+    ctx.behaviour('C', routine, plan['k_rdm'], plan['k_pattern'], plan['rdm_desc'], plan['pat_desc'], plan.get('boot_type'),
+                  spec['rdm_desc'].get('grp', {}).get('kind'), spec['pat_desc'].get('grp', {}).get('kind'))
+
+
 def execute(plan, ctx):
     import rsatoolbox  # noqa
     ctx.components.update(['real:rsatoolbox.inference.crossvalsets', 'real:rsatoolbox.inference.crossval',
@@ -501,6 +574,8 @@ def execute(plan, ctx):
     tabs = gen.source_tables(spec)
     g = plan['gen']
     ctx.tick('op', gen=g, mode=plan['mode'])
+    if plan['mode'] == 'C':
+        return _mode_C(ctx, plan)
     if plan['mode'] == 'A':
         try:
             out = _pipeline(ctx, plan, gen.enc, plan.get('draw_script'), plan.get('strict_script', False))
